@@ -87,6 +87,9 @@ func (r *run) note() {
 	c := r.ck
 	hx.Class(fmt.Sprintf("cfg/%s/client=%v/noflush=%v", r.cfg.Ctor, r.cfg.Client, r.cfg.NoFlush))
 	hx.Class(fmt.Sprintf("cfg/ext=%d", r.cfg.Ext))
+	if r.cfg.Reuse != "" {
+		hx.Class(fmt.Sprintf("cfg/second-life/%s/side-changed=%v", r.cfg.Reuse, r.cfg.Client != r.cfg.PrevClient))
+	}
 	switch s := r.ex.W.Size(); {
 	case s <= 125:
 		hx.Class("size/<=125")
@@ -193,6 +196,12 @@ func exhaustiveConfigs() []wh.Config {
 			}
 		}
 		cs = append(cs, wh.Config{Ctor: "buffer", N: 128 + m, Client: client, Op: 2, Ext: wh.ExtCompressed | wh.ExtRsv2})
+		// second life: the buffer was laid out for the other side (other opcode,
+		// extensions, a non-final frame out and flushing disabled) before Reset,
+		// resp. went through PutWriter/GetWriter
+		cs = append(cs, wh.Config{Ctor: "bufsize", N: 131, Client: client, Op: 1, Reuse: "reset", PrevClient: !client, PrevOp: 2, PrevUse: 3})
+		cs = append(cs, wh.Config{Ctor: "buffer", N: 7, Client: client, Op: 2, Reuse: "reset", PrevClient: !client, PrevOp: 9, PrevUse: 2 | 4})
+		cs = append(cs, wh.Config{Ctor: "get", N: 128, Client: client, Op: 1, Reuse: "pool", PrevClient: !client, PrevOp: 2, PrevUse: 1})
 	}
 	return cs
 }
@@ -257,7 +266,7 @@ func TestExhaustiveSmallDepth(t *testing.T) {
 		}
 	}
 	hx.EvalN(int(total))
-	hx.Part(fmt.Sprintf("action sequences of depth 1..%d over %d letters x %d configurations (raw 3/127/128 server, 7/131/132 client, flush on/off, extensions)", depth, len(alpha), len(cfgs)), total, true)
+	hx.Part(fmt.Sprintf("action sequences of depth 1..%d over %d letters x %d configurations (raw 3/127/128 server, 7/131/132 client, flush on/off, extensions, second life after Reset / pool)", depth, len(alpha), len(cfgs)), total, true)
 }
 
 // TestThresholdSweep: for every raw buffer length around the reservation
@@ -306,9 +315,16 @@ func TestThresholdSweep(t *testing.T) {
 			if raw < wh.MinRaw(client) {
 				continue
 			}
-			for _, nf := range []bool{false, true} {
+			for _, v := range []int{0, 1, 2} { // flush on / flush off / flush on in a second life after use on the other side
+				nf, reuse := v == 1, v == 2
+				if reuse && raw < 7 {
+					continue
+				}
 				for si, sc := range scripts {
 					cfg := wh.Config{Ctor: "buffer", N: raw, Client: client, Op: 2, NoFlush: nf}
+					if reuse {
+						cfg.Reuse, cfg.PrevClient, cfg.PrevOp, cfg.PrevUse = "reset", !client, 1, si%4
+					}
 					r := newRun(cfg, int64(raw*31+si))
 					n++
 					var err error
@@ -332,7 +348,7 @@ func TestThresholdSweep(t *testing.T) {
 		}
 	}
 	hx.EvalN(n)
-	hx.Part("threshold sweep: raw 3..20, 120..140, 65530..65556 x side x flush mode x 19 boundary scripts", int64(n), true)
+	hx.Part("threshold sweep: raw 3..20, 120..140, 65530..65556 x side x {flush on, flush off, second life after Reset from the other side} x 19 boundary scripts", int64(n), true)
 }
 
 // TestWriteMessage: WriteMessage and its six variants send exactly one final
